@@ -54,6 +54,12 @@ Ref(cfg) ==
             [] cfg.shape \in {"nil1", "nil2", "nilif"} -> Str("")
             [] cfg.shape = "nilin" -> Str(M(1))
             [] cfg.shape = "nilbr" -> Str(Mark(NodeByName(cfg, cfg.pick)))
+            \* ebr: a has BOTH an edge a -> b and a branch {b, c} that picks b: b runs once on a's output
+            [] cfg.shape = "ebr" -> Str(v \o M(1) \o M(2))
+            \* eskw / eskg (all-predecessor trigger: workflow / DAG graph), output type map[string]any, input type string: a branches to b
+            \* (keyed output, the only DATA predecessor of END) or c (END only has an execution dependency on it): when c is picked END is
+            \* reached with no data at all and the result is the output type's zero value (the empty map) in every paradigm
+            [] cfg.shape \in {"eskw", "eskg"} -> IF cfg.pick = "b" THEN {<<"b", v \o M(1) \o M(2)>>} ELSE {}
             [] cfg.shape = "branch" -> Str(v \o M(1) \o Mark(NodeByName(cfg, cfg.pick)))
             [] cfg.shape = "keys" -> {<<"out", v \o Cat([i \in 1..Len(N) |-> M(i)])>>}
 
